@@ -145,7 +145,7 @@ CLAIMED = {
              'k-th actual argument or an illegal_argument beyond the arity, for all 7 x 16 x 15 combinations (underscore_k_is_kth_argument); '
              'store model of copy vs reference capture (plain_sees_creation_value, lr_sees_call_value). The C++-language part (reference '
              'binding, no copies, [=]/[&] semantics) is VALIDATED, not proved, by a generated self-checking program family over arities, '
-             'positions and passing modes incl. const, overloaded and IMPLEMENT_MOCKed functions.',
+             'positions and passing modes incl. const, overloaded and IMPLEMENT_MOCKed functions. The copies of a plain clause are immutable and the same on every call: clauseLambdas table regenerated from the clause macros and pinned (clause_lambdas, no_clause_lambda_is_mutable); the farm names class-type locals as rvalues over several calls and probes that a write to a captured local compiles in an LR_ clause and not in a plain one.',
         ref='DESIGN.md §4 C09', engine='lean-gen',
         note='Trusted: Lean kernel; axioms propext/Classical.choice/Quot.sound; the translator (macro bodies -> tables); g++ for the '
              'language semantics of references, lambda captures and moves; the program family tools/argsfarm.py (ASan+UBSan).',
